@@ -7,6 +7,7 @@ import (
 	"fmt"
 	"os"
 	"strings"
+	"time"
 
 	"golang.org/x/tools/go/ssa"
 )
@@ -505,6 +506,9 @@ func mergeCallUncached(fn *ssa.Function, args []value, free []value) value {
 	var outs []outcome
 	abnormal := false
 	for len(sub.items) > 0 && !abnormal {
+		if !jobDeadline.IsZero() && time.Now().After(jobDeadline) {
+			panic(unwindFail{"job time budget exhausted (inside a merge region)"})
+		}
 		it := sub.items[len(sub.items)-1]
 		sub.items = sub.items[:len(sub.items)-1]
 		inner := &runState{decisions: it.dec, vars: outer.vars, related: outer.related, nondets: outer.nondets,
